@@ -332,6 +332,9 @@ def run(ctx: Ctx) -> None:
             if a0 is None:
                 continue
             texts = []
+            # (the text may be encoded on the way: `hashlib.sha256(s.encode('utf-8'))` where a helper was expanded in place)
+            while isinstance(a0, ast.Call) and isinstance(a0.func, ast.Attribute) and a0.func.attr == "encode":
+                a0 = a0.func.value
             if isinstance(a0, ast.Call) and isinstance(a0.func, ast.Name) and a0.func.id in ("str", "repr") and a0.args:
                 texts.append((a0, a0))
             elif isinstance(a0, ast.Name):
@@ -388,7 +391,7 @@ def run(ctx: Ctx) -> None:
                 guarded12 = bool(guards) and gcfg.find_path([gcfg.entry], gcfg.nodes_of(r_), avoid=av12) is None
                 # the test may be held in a local (`has_text = tz is None or type(tz).__repr__ is not object.__repr__`, `if has_text: ... repr(..)`): read along the paths
                 cmps12 = [x for x in g_.own_nodes() if isinstance(x, ast.Compare) and len(x.ops) == 1 and "__repr__" in unparse(x, 200) and "object.__repr__" in unparse(x, 200)]
-                if not guards and cmps12:
+                if cmps12 and not (guards and guarded12):
                     from ..propdom import feasible_path as _fp12
                     subj12 = {y.id for x in cmps12 for y in ast.walk(x) if isinstance(y, ast.Name) and y.id != "object" and y.id != "type"}
 
@@ -408,6 +411,8 @@ def run(ctx: Ctx) -> None:
                         class _G12:
                             ast = cmps12[0]
                         guards = [_G12()]  # type: ignore
+                    else:
+                        guards = []
                 if guards and (guarded12 or _dom12(ctx, g_, r_, guards) is None):
                     rep.ok("C03.R12", g_.qname, desc, g_.loc(r_))
                     # ... and the text of a datetime / time includes the text of its time zone: the test looks at `<value>.tzinfo` too
@@ -730,9 +735,28 @@ def session_globals_only_for_main(ctx: Ctx, rule: str) -> int:
     prog = ctx.prog
     n = 0
 
+    resolver_mod = prog.modules.get("dds._retrieve_objects")
+
+    def consts_of(x: ast.AST, depth: int = 0) -> set:
+        if isinstance(x, ast.Constant):
+            return {x.value}
+        if isinstance(x, (ast.Tuple, ast.List, ast.Set)):
+            out = set()
+            for y in x.elts:
+                out |= consts_of(y, depth)
+            return out
+        if isinstance(x, ast.Name) and depth < 3 and resolver_mod is not None:
+            out = set()
+            for st in resolver_mod.assigns.get(x.id, []):
+                v = getattr(st, "value", None)
+                if v is not None:
+                    out |= consts_of(v, depth + 1)
+            return out or {f"<{x.id}>"}
+        return {"<?>"}
+
     def atom(e: ast.AST) -> Optional[str]:
-        if isinstance(e, ast.Compare) and len(e.ops) == 1 and isinstance(e.ops[0], (ast.In, ast.NotIn)) and isinstance(e.comparators[0], (ast.Tuple, ast.List, ast.Set)):
-            cs = {c.value for c in e.comparators[0].elts if isinstance(c, ast.Constant)}
+        if isinstance(e, ast.Compare) and len(e.ops) == 1 and isinstance(e.ops[0], (ast.In, ast.NotIn)) and isinstance(e.comparators[0], (ast.Tuple, ast.List, ast.Set, ast.Name)):
+            cs = consts_of(e.comparators[0])
             if "__main__" in cs and cs <= {"__main__", "__global__"}:
                 return ("" if isinstance(e.ops[0], ast.In) else "!") + "<session-scope>"
         if isinstance(e, ast.Compare) and len(e.ops) == 1 and isinstance(e.ops[0], (ast.Eq, ast.NotEq)) and isinstance(e.comparators[0], ast.Constant) and e.comparators[0].value == "__main__":
